@@ -85,6 +85,7 @@ impl Prop for P19 {
                     "badopt3" => (vec!["-L", "-3"], b"a b\n"),
                     "quote" => (vec!["-n", "1"], b"a 'b c\n"),
                     "quote2" => (vec![], b"x \"unterminated\n"),
+                    "toolong4" | "toolong5" => (vec![], b"ab\nabcdefghijklmnopqrst\ncd\n"),
                     // the opening quote is the very last byte of the input: nothing, not even a blank, follows it
                     "quote3" => (vec![], b"a b \""),
                     "quote4" => (vec!["-r"], b"'"),
@@ -103,6 +104,15 @@ impl Prop for P19 {
                 }
                 let mut o = XOpts::new(&sv);
                 o.opts = opts.iter().map(|s| s.to_string()).collect();
+                if kind == "toolong4" || kind == "toolong5" {
+                    // -I: the line fits -s as it is read, the command line after the substitution does not - still xargs' own
+                    // "argument too long" (status 1), also after a child that failed
+                    o.opts = vec!["-s".into(), ((vrec_path().as_os_str().len() + 40) as u64).to_string(), "-I{}".into()];
+                    o.init = vec![b"{}{}{}".to_vec()];
+                    if kind == "toolong5" {
+                        o.script = Some(vec![7]);
+                    }
+                }
                 if kind == "toolong3" {
                     o.script = Some(vec![3]);
                 }
@@ -117,7 +127,7 @@ impl Prop for P19 {
 
     fn gen(&mut self, rng: &mut Rng, idx: usize, tier: &str) -> Value {
         if idx % 8 == 7 {
-            let k = *rng.pick(&["notfound", "notfound_norun", "notfound_quote", "notexec", "notexec_dir", "notexec_notdir", "notexec_loop", "badopt", "badopt2", "badopt3", "quote", "quote2", "quote3", "quote4", "quote5", "toolong", "toolong2", "toolong3"]);
+            let k = *rng.pick(&["notfound", "notfound_norun", "notfound_quote", "notexec", "notexec_dir", "notexec_notdir", "notexec_loop", "badopt", "badopt2", "badopt3", "quote", "quote2", "quote3", "quote4", "quote5", "toolong", "toolong2", "toolong3", "toolong4", "toolong5"]);
             return json!({"kind": k});
         }
         let len = if idx % 10 == 0 { rng.below(if tier == "thorough" { 200 } else { 60 }) } else { rng.below(9) };
